@@ -213,6 +213,8 @@ def Same(ref):
 def RangeP(lo, hi_inclusive):
     """`lo ..= hi`  or  `lo .. hi + 1`"""
     def m(e):
+        if isinstance(e, tuple) and e[0] == "call" and "RangeInclusive" in e[1] and e[1].endswith("::new") and len(e[2]) == 2:
+            return lo(e[2][0]) and hi_inclusive(e[2][1])        # `a..=b` is RangeInclusive::new(a, b)
         if not (isinstance(e, tuple) and e[0] == "agg" and len(e) > 2 and len(e[2]) >= 2):
             return False
         if e[1].endswith("RangeInclusive"):
